@@ -231,6 +231,18 @@ func init() {
 		"encoding/json.Unmarshal": func(fr *Frame, st *State, call ssa.CallInstruction, fn *ssa.Function, a []Term) ([]Term, bool) {
 			return fr.decodeIntoJSON(st, call, 1, a, "encoding/json.Unmarshal", a[0]), true
 		},
+		"bytes.HasSuffix": func(fr *Frame, st *State, call ssa.CallInstruction, fn *ssa.Function, a []Term) ([]Term, bool) {
+			vc := fr.vc
+			vc.wf(st, a[0], call.Common().Args[0].Type())
+			vc.wf(st, a[1], call.Common().Args[1].Type())
+			return []Term{sx("str.suffixof", sx("bstr", a[1]), sx("bstr", a[0]))}, true
+		},
+		"bytes.HasPrefix": func(fr *Frame, st *State, call ssa.CallInstruction, fn *ssa.Function, a []Term) ([]Term, bool) {
+			vc := fr.vc
+			vc.wf(st, a[0], call.Common().Args[0].Type())
+			vc.wf(st, a[1], call.Common().Args[1].Type())
+			return []Term{sx("str.prefixof", sx("bstr", a[1]), sx("bstr", a[0]))}, true
+		},
 		"bytes.TrimSpace": func(fr *Frame, st *State, call ssa.CallInstruction, fn *ssa.Function, a []Term) ([]Term, bool) {
 			vc := fr.vc
 			vc.sc.DeclFun("trimSpace", []string{"String"}, "String")
